@@ -197,6 +197,31 @@ def run(chk):
                 chk.fail("kick metallicity is the BH-grid clamp of the requested one", dict(FeH=x), dict(kick_FeH=float(fk)))
     finally:
         emf.EvolvedMF._evolve = old
+    # the BH table used by a MODEL of each family is the nearest one of THAT family's grid (the grids end at different metallicities)
+    emf.EvolvedMF._evolve = lambda self: None
+    try:
+        with U.patched(np, "loadtxt", rec):
+            for meth, fam in FAMILIES.items():
+                ls, neg_h, pos_h = grids[meth]
+                for x in [0.43, 0.47, 0.8, 0.405, -0.0, pos_h / 100, -neg_h / 100 - 0.3] + [rng.uniform(-neg_h / 100 - 0.2, pos_h / 100 + 0.2) for _ in range(6 if chk.tier == "quick" else 60)]:
+                    opened.clear()
+                    try:
+                        emf.EvolvedMF.from_powerlaw([0.1, 0.5, 1.0, 100], [-0.5, -1.3, -2.5], [1, 1, 2], float(x), [100.0], 0, BH_IFMR_method=meth)
+                    except Exception as e:  # noqa
+                        chk.fail("every metallicity maps to an existing table", dict(method=meth, FeH=float(x), through="EvolvedMF"), dict(error=type(e).__name__))
+                        continue
+                    bh = [p_ for p_ in opened if "/" + fam + "/" in p_]
+                    if not bh:
+                        chk.fail("the table used is the nearest tabulated metallicity (clamped at the grid ends)", dict(method=meth, FeH=float(x), through="EvolvedMF"), "no table of this family opened")
+                        continue
+                    m_ = re.search(r"IFMR_FEH([+-])(\d+)\.(\d\d)\.dat", bh[0])
+                    val_ = (-1 if m_.group(1) == "-" else 1) * (int(m_.group(2)) * 100 + int(m_.group(3)))
+                    chk.count("model-level table lookups")
+                    if not nearest_ok(float(x), val_, -neg_h, pos_h):
+                        chk.fail("the table used is the nearest tabulated metallicity (clamped at the grid ends)", dict(method=meth, FeH=float(x), through="EvolvedMF"),
+                                 dict(table="%+.2f" % (val_ / 100)))
+    finally:
+        emf.EvolvedMF._evolve = old
     vals = C.eval_cases("C10rows", "From SSP Require Import Model.Lifetime.", "", rexprs, shard=400)
     dis = [dict(input=dict(FeH=x), impl=[j, k], model=[int(v[0]), int(v[1])]) for (x, j, k), v in zip(rmeta, vals)
            if (int(v[0]), int(v[1])) != (j, k)]
